@@ -445,4 +445,93 @@ theorem compose (B : Bnds) (n0 N : Nat) (defs : List Def) (steps : List Step) (r
     exact (compose_relaxed B n0 N defs roots x hwf hN hroots hfin hcov (hDomOK _ hDomE)).mpr
       ⟨y, hDomOK y hdy, hrelaxed⟩
 
+
+/-! ## from the gadget theorems (`Exact`) to `StepOK` -/
+
+theorem sos1Ok_congr (a e : Asg) (l : List Var) (h : ∀ v ∈ l, a v = e v) : sos1Ok a l = sos1Ok e l := by
+  induction l with
+  | nil => rfl
+  | cons b t ih =>
+    have ht : ∀ v ∈ t, a v = e v := fun v hv => h v (by simp [hv])
+    simp only [sos1Ok, h b (by simp), ih ht]
+    rw [all_congr_mem (fun w => a w == 0) (fun w => e w == 0) t (fun w hw => by rw [ht w hw])]
+
+theorem sos2Ok_congr (a e : Asg) (l : List Var) (h : ∀ v ∈ l, a v = e v) : sos2Ok a l = sos2Ok e l := by
+  induction l with
+  | nil => rfl
+  | cons b t ih =>
+    cases t with
+    | nil => rfl
+    | cons c t' =>
+      have ht : ∀ v ∈ c :: t', a v = e v := fun v hv => h v (by simp only [List.mem_cons] at hv ⊢; exact Or.inr hv)
+      have ht' : ∀ v ∈ t', a v = e v := fun v hv => ht v (by simp [hv])
+      simp only [sos2Ok, h b (by simp), ih ht]
+      rw [all_congr_mem (fun w => a w == 0) (fun w => e w == 0) t' (fun w hw => by rw [ht' w hw])]
+
+theorem linvars_congr {a e : Asg} {l : Lin} (h : ∀ v ∈ l.map (·.2), a v = e v) : evalLin a l = evalLin e l :=
+  evalLin_congr a e l (fun p hp => h p.2 (List.mem_map.mpr ⟨p, hp, rfl⟩))
+
+theorem quadvars_congr {a e : Asg} {q : Quad} (h : ∀ v ∈ q.map (·.2.1) ++ q.map (·.2.2), a v = e v) :
+    evalQuad a q = evalQuad e q :=
+  evalQuad_congr a e q (fun t ht =>
+    ⟨h _ (List.mem_append.mpr (Or.inl (List.mem_map.mpr ⟨t, ht, rfl⟩))),
+     h _ (List.mem_append.mpr (Or.inr (List.mem_map.mpr ⟨t, ht, rfl⟩)))⟩)
+
+/-- a constraint's truth depends only on the variables it reads -/
+theorem sat_congr (c : Con) (a e : Asg) (h : ∀ v ∈ c.vars, a v = e v) : c.sat a ↔ c.sat e := by
+  cases c with
+  | linRange body lb ub => simp only [Con.sat, linvars_congr (l := body) h]
+  | linRhs k body rhs => simp only [Con.sat, linvars_congr (l := body) h]
+  | quadRange lin q lb ub =>
+    simp only [Con.vars, List.mem_append] at h
+    simp only [Con.sat, linvars_congr (l := lin) (fun v hv => h v (Or.inl hv)),
+      quadvars_congr (q := q) (fun v hv => h v (Or.inr (List.mem_append.mp hv)))]
+  | quadRhs k lin q rhs =>
+    simp only [Con.vars, List.mem_append] at h
+    simp only [Con.sat, linvars_congr (l := lin) (fun v hv => h v (Or.inl hv)),
+      quadvars_congr (q := q) (fun v hv => h v (Or.inr (List.mem_append.mp hv)))]
+  | indLin b bv k body rhs =>
+    simp only [Con.vars, List.mem_cons] at h
+    simp only [Con.sat, h b (Or.inl rfl), linvars_congr (l := body) (fun v hv => h v (Or.inr hv))]
+  | sos1 vs ws => simp only [Con.sat, sos1Ok_congr a e vs h]
+  | sos2 vs ws => simp only [Con.sat, sos2Ok_congr a e vs h]
+  | func res ctx f =>
+    simp only [Con.vars, List.mem_cons] at h
+    simp only [Con.sat, h res (Or.inl rfl), val_congr f a e (fun v hv => h v (Or.inr hv))]
+
+theorem auxOk_congr (n : Nat) (a e : Asg) (l : List VarInfo) (h : ∀ v, v < n + l.length → a v = e v) :
+    auxOk n a l ↔ auxOk n e l := by
+  induction l generalizing n with
+  | nil => simp [auxOk]
+  | cons i t ih =>
+    simp only [auxOk, List.length_cons] at h ⊢
+    rw [h n (by omega), ih (n + 1) (fun v hv => h v (by omega))]
+
+/-- a proved gadget theorem gives a valid step -/
+theorem stepOK_of_exact (N : Nat) (Dom D : Asg → Prop) (d : Def) (o : Out) (n : Nat)
+    (hN : N ≤ n) (hDD : ∀ y, Dom y → D y)
+    (hex : Exact o n D (fun x => rel d.ctx (x d.res) (d.f.val x)))
+    (hrows : ∀ c ∈ o.cons, ∀ v ∈ c.vars, v < n + o.vars.length) :
+    StepOK N Dom (Step.ofGadget d o n) := by
+  refine ⟨hN, ?_, ?_, ?_⟩
+  · intro y hd ⟨hax, hcs⟩; exact hex.1 y (hDD y hd) hax hcs
+  · intro z hd hz
+    have hrel : rel d.ctx (z d.res) (d.f.val z) := C01_mix_implies_ctx _ _ _ hz
+    obtain ⟨z', hag, hax, hcs⟩ := hex.2 z (hDD z hd) hrel
+    exact ⟨z', hag, hax, hcs⟩
+  · intro y y' hag ⟨hax, hcs⟩
+    refine ⟨(auxOk_congr n y' y o.vars hag).mpr hax, ?_⟩
+    intro c hc
+    exact (sat_congr c y' y (fun v hv => hag v (hrows c hc v hv))).mpr (hcs c hc)
+
+/-- a natively delivered definition is a valid step -/
+theorem stepOK_native (N : Nat) (Dom : Asg → Prop) (d : Def) (hres : d.res < N) (hvars : ∀ v ∈ d.f.vars, v < N) :
+    StepOK N Dom (Step.native d N) := by
+  refine ⟨Nat.le_refl N, ?_, ?_, ?_⟩
+  · intro y _ h; exact C01_mix_implies_ctx _ _ _ h
+  · intro z _ hz; exact ⟨z, fun _ _ => rfl, hz⟩
+  · intro y y' hag h
+    show y' d.res = d.f.val y'
+    rw [hag d.res hres, val_congr d.f y' y (fun v hv => hag v (hvars v hv))]; exact h
+
 end MpVerif.C01
